@@ -282,10 +282,15 @@ func errChain(call *ssa.Call, opts ErrChainOpts) chainVerdict {
 			return nil, false
 		}
 		// the sentinel branch must leave the function (with or without an error)
+		usesAsSuccess := false
 		for rb := range dominatedRegion(eqSucc) {
 			last := rb.Instrs[len(rb.Instrs)-1]
-			switch last.(type) {
-			case *ssa.Return, *ssa.Panic:
+			switch x := last.(type) {
+			case *ssa.Return:
+				if fnErrIdx >= 0 && isNilConst(retOperands(x)[fnErrIdx]) {
+					usesAsSuccess = true
+				}
+			case *ssa.Panic:
 			default:
 				for _, s := range rb.Succs {
 					if !dominatedRegion(eqSucc)[s] {
@@ -294,7 +299,9 @@ func errChain(call *ssa.Call, opts ErrChainOpts) chainVerdict {
 				}
 			}
 		}
-		sentinelUsed = true
+		if usesAsSuccess {
+			sentinelUsed = true
+		}
 		return []*ssa.BasicBlock{neSucc}, true
 	}
 	if !gate[start] {
